@@ -77,21 +77,36 @@ def canonicalise_roles(raw):
     except ImportError:
         return {}
     ren = {}
+    try:
+        from spec.roles import vector_roles
+        VR = vector_roles()
+    except ImportError:
+        VR = {}
     for a in raw['adts']:
-        roles = ROLES.get(a['path'])
+        roles = list(ROLES.get(a['path']) or []) + list(VR.get(a['path']) or [])
         if not roles or a.get('kind') != 'Struct' or len(a['variants']) != 1: continue
         fields = a['variants'][0]['fields']
         m = {}
         for canon, tys in roles:
-            cands = [fd for fd in fields if fd.get('vis') == 'priv' and fd['ty'].replace("'_", '') in tys]
+            ok_ty = (lambda ty: tys(ty)) if callable(tys) else (lambda ty: ty in tys)
+            cands = [fd for fd in fields if fd.get('vis') == 'priv' and ok_ty(fd['ty'].replace("'_", ''))]
             if len(cands) == 1 and cands[0]['name'] != canon: m[cands[0]['name']] = canon
         # a rename must not collide with another field that keeps its name
         keep = {fd['name'] for fd in fields if fd['name'] not in m}
         if not m or any(c in keep for c in m.values()) or len(set(m.values())) != len(m): continue
         ren[a['path']] = m
-        for fd in fields:
-            if fd['name'] in m: fd['name'] = m[fd['name']]
-    if not ren: return ren
+    apply_field_renames(raw, ren)
+    return ren
+
+def apply_field_renames(raw, ren):
+    """rename fields {adt: {actual: canonical}} in the struct definitions, projections, struct literals and patterns"""
+    if not ren: return
+    for a in raw['adts']:
+        m = ren.get(a['path'])
+        if not m: continue
+        for var in a['variants']:
+            for fd in var['fields']:
+                if fd['name'] in m: fd['name'] = m[fd['name']]
     def base_ty(t):
         return strip_refs(norm_ty(t))
     def walk(x):
@@ -113,7 +128,6 @@ def canonicalise_roles(raw):
         elif isinstance(x, list):
             for v in x: walk(v)
     walk(raw['bodies'])
-    return ren
 
 _LT = re.compile(r"'[a-z_]+\s*,?\s*|&'[a-z_]+ ")
 
